@@ -921,6 +921,43 @@ def _callers_range_check(h, cparam, sites, cf) -> bool:
     return True
 
 
+def _subst_x(x, mapping: dict):
+    """Copy of an IR tree with `name` nodes replaced by expressions."""
+    if isinstance(x, X):
+        if x.k == "name" and x.a[0] in mapping:
+            return mapping[x.a[0]]
+        return X(x.k, *[_subst_x(v, mapping) for v in x.a], line=x.line)
+    if isinstance(x, list):
+        return [_subst_x(v, mapping) for v in x]
+    if isinstance(x, tuple):
+        return tuple(_subst_x(v, mapping) for v in x)
+    return x
+
+
+def _defs_through_helpers(cf, fvar, it: CInterp, depth=0):
+    """Right-hand sides of the definitions of the float local `fvar`: in the
+    kernel itself, or in a same-file C helper the kernel calls - then with the
+    helper's parameters replaced by the arguments of each call."""
+    out = []
+    for s in walk(cf.body):
+        if not isinstance(s, X):
+            continue
+        if s.k == "assign" and any(t.k == "name" and t.a[0] == fvar for t in s.a[0]):
+            out.append(s.a[1])
+        elif s.k == "cdecl":
+            out.extend(init for name, _t, init in s.a[0]
+                       if name == fvar and init is not None)
+        elif s.k == "call" and s.a[0].k == "name" and s.a[0].a[0] in it.cfuncs \
+                and depth < 3:
+            hf = it.cfuncs[s.a[0].a[0]]
+            if hf is cf or len(hf.params) != len(s.a[1]):
+                continue
+            mp = {pn: a for (pn, _), a in zip(hf.params, s.a[1])}
+            for e in _defs_through_helpers(hf, fvar, it, depth + 1):
+                out.append(_subst_x(e, mp))
+    return out
+
+
 def _lower_fact(run, cy, cf, h, fvar, it: CInterp, sites) -> bool:
     """`fvar = scaling * (x - range_min)` is >= 0 when range_min is the minimum
     over every array whose elements are binned with it and scaling > 0."""
@@ -931,10 +968,8 @@ def _lower_fact(run, cy, cf, h, fvar, it: CInterp, sites) -> bool:
     # is subtracted
     bases = set()
     sub = None
-    for s in walk(cf.body):
-        if isinstance(s, X) and s.k == "assign" and any(
-                t.k == "name" and t.a[0] == fvar for t in s.a[0]):
-            e = s.a[1]
+    for e in _defs_through_helpers(cf, fvar, it):
+        if True:
             if e.k == "bin" and e.a[0] == "*":
                 for part in (e.a[1], e.a[2]):
                     if part.k == "bin" and part.a[0] == "-" and part.a[2].k == "name":
